@@ -197,7 +197,11 @@ func Explore(sc Scenario, bound int, budget time.Duration) Result {
 	}
 	deadline := time.Now().Add(budget)
 	var last Result
-	for b := 0; b <= bound; b++ {
+	first := 0
+	if bound >= 1<<19 {
+		first = bound // "no preemption bound": one pass over all interleavings
+	}
+	for b := first; b <= bound; b++ {
 		cur := res
 		cur.Outcomes = map[string]int64{}
 		cur.Found = nil
